@@ -201,9 +201,10 @@ def explore(mod, tier, seed, shard, examples_override=None, no_shrink=False):
           except Violation as v3:
             fails += 1
             v = v3
-        if fails:
-          v.detail = '%s (fails in %d of 3 direct replays; Hypothesis reported %s)' % (v.detail, fails, name)
-          return rec, (plan, v)
+        # the oracle did flag this plan against the real code at least once: report it,
+        # saying how reproducible it is (nondeterminism in the code under test, e.g. id()-keyed state)
+        v.detail = '%s (fails in %d of 3 direct replays; Hypothesis reported %s)' % (v.detail, fails, name)
+        return rec, (plan, v)
       raise
     if state['skipped']:
       rec.extra['skipped_after_time_budget'] = state['skipped']
